@@ -281,7 +281,8 @@ class Executor:
         n = mod.sizeof(rty)
         o = self._obj(st, p)
         if o is None:
-            self.prove(st, False, "load through null/invalid pointer")
+            fr_ = st.frames[-1] if st.frames else None
+            self.prove(st, False, "load through null/invalid pointer%s" % ((" in %s:%s" % (fr_.fn.name[:70], fr_.block)) if fr_ else ""))
             raise PathEnd()
         if o.freed:
             self.prove(st, False, "load from freed object %s" % o.name); raise PathEnd()
@@ -540,7 +541,10 @@ class Executor:
             if r == "unsat":
                 self.res.discharged += 1; self.solver.drop_extra()
             elif r == "sat":
-                m = self.solver.model(list(self.inputs.keys()))
+                names = list(self.inputs.keys())
+                if DEBUG:      # full model (every declared variable) for debugging
+                    names = sorted(set(n for lvl in self.solver.declared for n in lvl if not n.startswith("uf:")))
+                m = self.solver.model(names)
                 self.res.failed.append((d, m, list(st.trace)))
                 if self.stop_on_fail: raise PathEnd()
             else:
